@@ -36,6 +36,13 @@ func (v Violation) String() string { return fmt.Sprintf("[%s] step %d: %s", v.Ta
 // finding covers them (see known_findings.json). Each rewrite is counted.
 type Exclusions struct {
 	PendingAcrossJoin bool // D11: updates pending in the per-connection dispatcher survive a session change
+
+	// Not a finding: when two members update the same component within one frame, which value
+	// stays is unspecified (the session runs its members' frame handlers in map order). The
+	// reference model adopts the server's choice; the DIFFERENTIAL tests (C03, C17) execute the
+	// same history on several servers and need one outcome, so they let a frame pass before the
+	// second member's update. Counted as label "frame_inserted_before_conflicting_component_update".
+	SerialiseCompConflicts bool
 }
 
 type Exec struct {
@@ -406,6 +413,28 @@ func (e *Exec) Step(st Step) {
 		if (st.Op == OpPose || st.Op == OpCompUpdate) && !mc.joined() {
 			e.Excluded++
 			return
+		}
+	}
+	if e.Ex.SerialiseCompConflicts && st.Op == OpCompUpdate && mc.joined() {
+		k := CompKey{e.resolveTyp(mc, st.Typ), e.resolveEnt(mc, st.Ent)}
+		conflict := false
+		for _, o := range e.M.Conns {
+			if o != mc && o.Sess == mc.Sess && !o.Ended {
+				if _, ok := o.PendingComp[k]; ok {
+					conflict = true
+				}
+			}
+		}
+		if conflict {
+			e.label("frame_inserted_before_conflicting_component_update")
+			e.tick()
+			e.after(nil)
+			if len(e.Viol) > 0 {
+				return
+			}
+			if mc.Ended {
+				mc = e.conn(st.Conn)
+			}
 		}
 	}
 	if mc.Stalled && st.Op != OpSilence {
